@@ -48,12 +48,34 @@ func stallPoints(endpoint string) []string {
 	return append(handshakeStallPoints(endpoint), established...)
 }
 
+// garbage: malformed requests a misbehaving peer may send in place of either handshake request
+// (it then stays connected and silent)
+var garbage = []string{
+	"X-SOCKETACE /\r\n\r\n",            // request line with one blank
+	"\r\n\r\n",                         // empty request line
+	"GET\r\n\r\n",                      // no blank at all
+	" \r\n\r\n",                        // only a blank
+	"X-SOCKETACE  HTTP/1.1\r\n\r\n",    // two adjacent blanks
+	"X-SOCKETACE / HTTP/1.1\r\nNoColon\r\n\r\n",
+	"\x00\x01\x02\xff\r\n\r\n",
+	announce + "GET /\r\n\r\n",         // malformed second request
+	announce + "\r\n\r\n",
+}
+
+func garbagePoints() []string {
+	var out []string
+	for i := range garbage {
+		out = append(out, fmt.Sprintf("garbage:%d", i))
+	}
+	return out
+}
+
 func handshakeStallPoints(endpoint string) []string {
 	switch endpoint {
 	case "socket", "packet":
-		return []string{"after-connect", "partial-request-line", "announce-unsupported-version", "announce-then-bad-upgrade", "between-announce-and-upgrade", "after-upgrade-silence", "after-upgrade-garbage"}
+		return append(garbagePoints(), []string{"after-connect", "partial-request-line", "announce-unsupported-version", "announce-then-bad-upgrade", "between-announce-and-upgrade", "after-upgrade-silence", "after-upgrade-garbage"}...)
 	case "socket+tls":
-		return []string{"after-connect", "partial-tls-hello", "tls-then-silence", "tls-partial-request-line"}
+		return []string{"after-connect", "partial-tls-hello", "tls-then-silence", "tls-partial-request-line", "tls-garbage:0", "tls-garbage:7"}
 	case "dns":
 		return []string{"version-only", "hello-only", "hello-then-partial-announce"}
 	case "http":
@@ -140,6 +162,25 @@ func stall(w *world.World, c Case) (alive func() bool, err error) {
 		return nil, err
 	}
 	alive = func() bool { return !raw.PeerClosedWrite() }
+	if strings.HasPrefix(c.Stall, "garbage:") {
+		var i int
+		fmt.Sscanf(c.Stall, "garbage:%d", &i)
+		raw.Write([]byte(garbage[i%len(garbage)]))
+		bubble.Wait()
+		return alive, nil
+	}
+	if strings.HasPrefix(c.Stall, "tls-garbage:") {
+		var i int
+		fmt.Sscanf(c.Stall, "tls-garbage:%d", &i)
+		tc := tls.Client(raw, &tls.Config{InsecureSkipVerify: true})
+		go func() {
+			if tc.Handshake() == nil {
+				tc.Write([]byte(garbage[i%len(garbage)]))
+			}
+		}()
+		bubble.Wait()
+		return alive, nil
+	}
 	switch c.Stall {
 	case "after-connect":
 	case "partial-request-line":
@@ -330,6 +371,7 @@ func record(r *mc.Run, c Case, kind, detail string) {
 func TestCheck(t *testing.T) {
 	r := mc.New(t, "C15")
 	defer r.Finish()
+	r.CrashFails = true
 	if r.Replay != nil {
 		var c Case
 		r.DecodeReplay(&c)
